@@ -7,4 +7,8 @@ export CARGO_NET_OFFLINE=true
 if [ -x engines/srvsim/gen.sh ]; then
   ( cd engines/srvsim && ./gen.sh "${VERIF_REPO:-/repo}" && cargo build --release --offline )
 fi
+# second phase of C23: Miri's sysroot and the scenario's dependencies (best effort: ./check C23 notes a skip if Miri is missing)
+if [ -x engines/c23miri/gen.sh ] && cargo +nightly miri --version >/dev/null 2>&1; then
+  ( cd engines/c23miri && ./gen.sh "${VERIF_REPO:-/repo}" && cargo +nightly miri setup >/dev/null 2>&1 ) || true
+fi
 echo "setup ok"
